@@ -3,7 +3,7 @@ import random as _r
 
 from ..core import History
 from ..runner import EngineSpec, PropSpec, Hit
-from .. import gen_exec, gen_dispatch, mon_exec
+from .. import gen_exec, gen_dispatch, gen_gov, mon_exec
 from . import register
 
 
@@ -67,6 +67,7 @@ def gen(rng, n, tier):
              ("c03", lambda g, k: gen_dispatch.gen_c03(g, k, tier)),
              ("c17", lambda g, k: gen_dispatch.gen_c17(g, k, tier)),
              ("c08", lambda g, k: gen_dispatch.gen_c08(g, k, tier)),
+             ("c16", lambda g, k: gen_gov.gen_c16(g, k, tier)),
              ("eval", lambda g, k: gen_evaluations(g, max(3, k // 5), tier))]
     per = max(1, n // len(kinds))
     for name, f in kinds:
@@ -116,7 +117,7 @@ register(PropSpec(
     rule="exec engine, 3 replicas of one network with different local tuning (proof verification serial/parallel), the same "
          "ordered blocks on each; replica 0 is stopped and reopened at random places; in every second history one more replica runs the executor's own "
          "goroutine pipeline (Start / ExecuteBlock: pre-execution stage and execution stage overlap, two blocks in flight) and is compared one block later; traffic of every generator of the framework (mixed interchain, "
-         "one-to-many groups, fee-starved failures, proof kinds, every contract method by every role, malformed transactions); every block line "
+         "one-to-many groups, fee-starved failures, proof kinds, governance of appchains / services / rules / roles with the cascades onto a chain's services, every contract method by every role, malformed transactions); every block line "
          "(receipts, delivery / timeout / multi-tx metadata, block hash, state / tx / receipt / timeout roots) must be equal on all replicas and equal "
          "to the Lean model where the model covers it; non-trivial = at least one block on >= 2 replicas",
 ))
